@@ -86,7 +86,8 @@ func c15Case(ctx *report.Ctx, c *explore.Chooser, partName, s string) {
 
 var c15Tokens = []string{"[a", "]", "[/a]", "[/]", "/]", "[b]", "[/b]", "=1", "=1.", "=1.5", "=\"x", "\"", "=x", " ", "a", "é", "\xff", "\\[", "\\", ":", "Bob: ",
 	"[select value=", "[select value=a a=b/]", "[plural value=1", " one=\"%\"", "[nomarkup]", "[/nomarkup]", " trimwhitespace=1", " trimwhitespace=false", "[a/]", "[ordinal value=x", "[/select]", "[a=", "%", "[a x=-1]",
-	"=0.3333333333333333", "=1.30000000000000004000000", "=99999999999999999999"}
+	"=0.3333333333333333", "=1.30000000000000004000000", "=99999999999999999999",
+	" other=\"%\\\\\"", "[plural value=2", "[select value=a a=\"%\\\\\"/]"}
 
 func runC15(ctx *report.Ctx) {
 	alphabet := []byte{'[', ']', '/', '=', '"', '\\', ' ', 'a', '1', '.', ':', 0xC3, 0xA9, 0xFF}
